@@ -201,6 +201,7 @@ type execution struct {
 	syncs    map[unsafe.Pointer]*syncState
 	syncList []*syncState
 	timers   []*timerState
+	timerArms []int64
 	clock    int64
 
 	prefix []int
